@@ -80,6 +80,9 @@ def sched_oracle(groups: list[Group], executor: str) -> list[tuple[str, str]]:
             else:
                 if key is not None and key in store_expected and not g.ret.startswith('err'):
                     v.append(('C07', f'group {gi}: duplicate id {key} not rejected'))
+                if kind == 'once' and arg >= start_now and 'ScheduledRunInThePast' in g.ret:
+                    v.append(('C08', f'group {gi}: once() for the instant {arg}, which is not before the current instant '
+                                     f'{start_now}, was rejected as lying in the past'))
         elif name == 'enable':
             en = t[1] != '0'
             if en != enabled:
@@ -137,7 +140,7 @@ def sched_oracle(groups: list[Group], executor: str) -> list[tuple[str, str]]:
             if not jv.created_ok:
                 v.append(('C02', f'group {gi}: job {h} whose creation failed was executed at {at}'))
                 continue
-            if not enabled and disabled_since is not None and at >= disabled_since and name != 'enable':
+            if not enabled and disabled_since is not None and at >= disabled_since:
                 v.append(('C02', f'group {gi}: job {h} executed at {at} while the scheduler is disabled'))
             if jv.cancelled:
                 v.append(('C02', f'group {gi}: job {h} executed at {at} after cancel() returned'))
